@@ -13,6 +13,8 @@ import (
 	"sync"
 	"sync/atomic"
 	"time"
+
+	"github.com/pion/ice/v4/internal/verifhook"
 )
 
 type muxedPacketConn interface {
@@ -157,6 +159,7 @@ func (s *sharedPacketConn) Close() error {
 	s.closeOnce.Do(func() {
 		fired = true
 		s.cancel()
+		verifhook.Yield("shared.Close.afterCancel")
 		if s.refs.Add(-1) <= 0 {
 			err = s.underlying.Close()
 		}
